@@ -142,6 +142,12 @@ def run(ctx):
                 nested = True
             jobs.append((k, d, fs, pred, ctx.seed * 5 + k, ctx.scratch, nested))
             k += 1
+        # the zip-feature fault has several variants (version needed, method, encrypted member, patched data) at any directory record
+        zf_case = next(((fs, pred) for fs, pred in singles if len(fs) == 1 and fs[0]["kind"] == "zip-feature"), None)
+        for j in range(10 if q else 60):
+            if zf_case is not None:
+                jobs.append((k, d, zf_case[0], zf_case[1], ctx.seed * 5 + k, ctx.scratch, j % 5 == 4))
+                k += 1
         for _ in range(40 if q else 300):
             jobs.append((k, d, [{"kind": "rnd-truncate", "at": 0}], "", ctx.seed * 5 + k, ctx.scratch, False))
             k += 1
